@@ -37,6 +37,7 @@ type Config struct {
 	Bounds       map[string]int
 	StrParams    map[string]string
 	BitLenExtra  []int // additional exact anchors for the big.Int BitLen model
+	CLIEnv       bool            // C15: environment stubs of the command-line tool are active
 	RecordInputs bool            // keep the names of the input symbols each path read
 	AutoUF       bool            // callees without body or model become uninterpreted pure functions (sweep)
 	UF0          map[string]bool // functions replaced by an arbitrary constant result per path (their argument does not change during the run)
